@@ -296,8 +296,11 @@ def reset_clears(facts, struct, member, rfn):
                     verdict = True
                     last = (True, f, n.get("l", 0))
                 if n.get("k") == "Bin" and n.get("op") == "=" and path(n["lhs"]) == ("this", member):
-                    verdict = False
-                    last = (False, f, n.get("l", 0))
+                    r_ = ir.unwrap_all_casts(n.get("rhs"))
+                    isnone = any(x.get("qn") == "boost::none" for x in ir.walk(n.get("rhs"))) or \
+                        (isinstance(r_, dict) and r_.get("k") == "Construct" and not r_.get("args") and "optional<" in (r_.get("t") or ""))
+                    verdict = bool(isnone)
+                    last = (verdict, f, n.get("l", 0))
     if verdict is None:
         return None, None, 0
     return last
